@@ -1523,7 +1523,40 @@ class Model:
                     raise Untranslatable("From<CtapMappingError>", f"odd arm {arm['pat']}")
         return out
 
+    REQ_FRAME = ("{ if data . is_empty () { return Err (CtapMappingError :: ParsingError (cbor_smol :: Error :: DeserializeUnexpectedEnd) "
+                 ". into () ,) ; } let (& op , data) = data . split_first () . ok_or (CtapMappingError :: ParsingError (cbor_smol :: "
+                 "Error :: DeserializeUnexpectedEnd ,)) ? ; let operation = Operation :: try_from (op) . map_err (| _ | { "
+                 "CtapMappingError :: InvalidCommand (op) }) ? ; Ok (MATCH) }")
+    RESP_FRAME = ("{ buffer . resize_default (buffer . capacity ()) . ok () ; let (status , data) = buffer . split_first_mut () . unwrap () ; "
+                  "use cbor_smol :: cbor_serialize ; use Response :: * ; let outcome = MATCH ; if let Ok (slice) = outcome { "
+                  "* status = 0 ; if slice == [0xA0] { buffer . resize_default (1) . ok () ; } else { let l = slice . len () ; "
+                  "buffer . resize_default (l + 1) . ok () ; } } else { * status = Error :: %ERR% as u8 ; buffer . resize_default (1) . ok () ; } }")
+
+    @classmethod
+    def frame_of(cls, body, anchor):
+        """the function body with the `match <anchor> { .. }` block replaced by MATCH and logging
+        macro statements removed, in the normal form of `alpha`"""
+        i = body.find("match " + anchor + " {")
+        if i < 0 or body.count("match " + anchor + " {") != 1:
+            return None
+        j = body.index("{", i)
+        depth = 0
+        for k in range(j, len(body)):
+            if body[k] == "{":
+                depth += 1
+            elif body[k] == "}":
+                depth -= 1
+                if depth == 0:
+                    break
+        framed = body[:i] + "MATCH" + body[k + 1:]
+        framed = re.sub(r"\b(?:debug_now|debug|info_now|info|trace|warn|error|error_now) ! \((?:[^()]|\([^()]*\))*\) ; ", "", framed)
+        return cls.alpha(framed.replace("(& op , data)", "(& OP , DATA)").replace(" ,)", ")").replace(",)", ")"))
+
     def op_switch(self, f):
+        fr = self.frame_of(f["body"], "operation")
+        if fr != self.alpha(self.REQ_FRAME.replace("(& op , data)", "(& OP , DATA)").replace(" ,)", ")")):
+            raise Untranslatable("Request::deserialize", "the code around the operation switch (empty-input guard, split_first, "
+                                 "Operation::try_from → InvalidCommand) is not of the recognised shape")
         m = None
         for mm in f["matches"]:
             if mm["scrutinee"].strip() == "operation":
@@ -1556,6 +1589,11 @@ class Model:
                 "uses_try_from": "Operation :: try_from (op)" in pre}
 
     def resp_switch(self, f):
+        fr = self.frame_of(f["body"], "self")
+        mm = re.search(r"\* status = Error :: (\w+) as u8", f["body"])
+        if fr is None or mm is None or fr != self.alpha(self.RESP_FRAME.replace("%ERR%", mm.group(1))):
+            raise Untranslatable("Response::serialize", "the code around the variant switch (status byte, empty-map collapse, "
+                                 "truncation, failure status) is not of the recognised shape")
         m = None
         for mm in f["matches"]:
             if mm["scrutinee"].strip() == "self":
@@ -1595,6 +1633,18 @@ class Model:
             if not pm:
                 raise Untranslatable(name, f"odd pattern {arm['pat']}")
             body = arm["body"]
+            # the arm must be exactly "log; call the handler (with `?`); wrap / return the response":
+            # logging macros and `.inspect_err(|e| { log })` are dropped, local names are irrelevant
+            core = re.sub(r"\b(?:debug_now|debug|info_now|info|trace|warn|error|error_now) ! \((?:[^()]|\([^()]*\))*\) ; ", "", body)
+            core = re.sub(r" \. inspect_err \(\| \w+ \| \{ \}\s*,?\s*\)", "", core)
+            core = core.replace(" ", "").replace(",)", ")")
+            if not core.startswith("{"):
+                core = "{" + core + "}"
+            shapes = (r"\{Ok\(Response::(\w+)\(self\.(\w+)\((\*?\w*)\)\??\)\)\}",
+                      r"\{self\.(\w+)\((\*?\w*)\)\?;Ok\(Response::(\w+)\)\}",
+                      r"\{Ok\(Response::(\w+)\(Self::(\w+)\(\)\)\)\}")
+            if not any(re.fullmatch(sh, core) for sh in shapes):
+                raise Untranslatable(name, f"arm for {pm.group(1)} is not a plain handler call: {core[:120]}")
             calls = re.findall(r"(?:self|Self) (?:\.|::) (\w+) \(([^()]*)\)", body)
             calls = [(c, a.replace(" ", "")) for c, a in calls if c not in ("inspect_err",)]
             rv = re.findall(r"Response :: (\w+)", body)
